@@ -123,7 +123,7 @@ func goEnv() []string {
 }
 
 // build regenerates the overlay from the current tree and builds the worker binary.
-func build(scratch string) (bin, yieldMap string) {
+func build(scratch, only string) (bin, yieldMap string) {
 	goroot, err := exec.Command(goBin, "env", "GOROOT").Output()
 	if err != nil {
 		die(2, "cannot run %s: %v", goBin, err)
@@ -135,6 +135,10 @@ func build(scratch string) (bin, yieldMap string) {
 	bin = filepath.Join(scratch, "worker.test")
 	modfile := filepath.Join(verifDir, "go.mod")
 	args := []string{"test", "-c", "-vet=off", "-overlay", res.OverlayPath, "-o", bin}
+	if only != "" && os.Getenv("VERIF_ONLY") != "" {
+		// link only this property's package (others may be under construction)
+		args = append(args, "-tags", "only,only_"+strings.ToLower(only))
+	}
 	if repoDir() != "/repo" {
 		// alternate tree (mutant worktree): same module file with the replace target swapped
 		data, _ := os.ReadFile(modfile)
@@ -239,7 +243,7 @@ func main() {
 		if err != nil {
 			die(2, "scratch: %v", err)
 		}
-		build(scratch)
+		build(scratch, "")
 		os.RemoveAll(scratch)
 		fmt.Println("warm-up build ok")
 		return
@@ -300,7 +304,7 @@ func main() {
 		os.Exit(code)
 	}
 	start := time.Now()
-	bin, yieldMap := build(scratch)
+	bin, yieldMap := build(scratch, id)
 	buildS := time.Since(start).Seconds()
 	meta := loadMeta(bin, scratch, id)
 	knownList := loadKnown()
